@@ -152,6 +152,8 @@ func (p *Parser) evaluateLine(l string) error {
 	}
 	// first we get the directive
 	dir, opts, _ := strings.Cut(l, " ")
+	// more than one blank may separate the directive from its options
+	opts = strings.TrimLeft(opts, " ")
 
 	p.options.WAF.Logger.Debug().Str("line", l).Msg("Parsing directive")
 	directive := strings.ToLower(dir)
